@@ -2,7 +2,7 @@
 /* C07.append_base_pathname: path := path ++ input */
 void harness(void) {
   EDITOR_PROLOGUE
-  sv_t input; input.n = nondet_size(); MAKE_SV(input);
+  ND_SV(input);
   __CPROVER_assume(IN_CLASS(input, '?', '#', '#', '#', '#'));
   __CPROVER_assume(v0.path.n > 0 || old.base.has_opaque_path || input.n == 0 || input.p[0] == '/');
   __CPROVER_assume(v0.has_authority || v0.dash_dot || old.base.has_opaque_path || !(v0.path.n == 1 && input.n > 0 && input.p[0] == '/') );
